@@ -15,6 +15,38 @@ import (
 
 type ManyInput struct {
 	N int `json:"distinct_types"`
+	// Lists: instead of the N generated lists, these (in this order), one leaf each: member lists
+	// that differ but read alike when written out carelessly (one name that contains what the
+	// other spells with two members and a value)
+	Lists []Input `json:"lists,omitempty"`
+}
+
+// confusable returns pairs of member lists whose naive serialisations "name SEP1 value SEP2 name ..."
+// coincide: [a=1, b] and the single member named "a<s1>1<s2>b", the same with all values explicit,
+// and [a, b] next to "a<s2>b" - for the separators a table key, a cache key or a printed form is
+// likely to use. Every pair in both orders, for enumerations and bits.
+func confusable() []ManyInput {
+	var out []ManyInput
+	s1s := []string{"=", ":", " ", "/", "-", "#", "\t", "(", ""}
+	s2s := []string{",", ";", " ", "|", "\n", "/", "+", ")", ", ", "\x1f"}
+	for _, bits := range []bool{false, true} {
+		mk := func(names, values []string) Input { return Input{Bits: bits, Path: "text", Names: names, Values: values} }
+		pair := func(a, b Input) {
+			out = append(out, ManyInput{Lists: []Input{a, b}}, ManyInput{Lists: []Input{b, a}})
+		}
+		for _, s2 := range s2s {
+			pair(mk([]string{"a", "b"}, []string{"", ""}), mk([]string{"a" + s2 + "b"}, []string{""}))
+			pair(mk([]string{"a", "b"}, []string{"", ""}), mk([]string{"a" + s2 + "b" + s2 + "c"}, []string{""}))
+			for _, s1 := range s1s {
+				n := "a" + s1 + "1" + s2 + "b"
+				pair(mk([]string{"a", "b"}, []string{"1", ""}), mk([]string{n}, []string{""}))
+				pair(mk([]string{"a", "b"}, []string{"1", "0"}), mk([]string{n}, []string{"0"}))
+				pair(mk([]string{"a", "b"}, []string{"1", ""}), mk([]string{n}, []string{"2"}))
+				pair(mk([]string{"a", "b", "c"}, []string{"1", "", ""}), mk([]string{n, "c"}, []string{"", ""}))
+			}
+		}
+	}
+	return out
 }
 
 func manyList(i int) Input {
@@ -32,9 +64,9 @@ func typeText(in Input) string {
 	sb.WriteString("type " + kw + " {")
 	for i, n := range in.Names {
 		if in.Values[i] == "" {
-			fmt.Fprintf(&sb, " %s %s;", sub, n)
+			fmt.Fprintf(&sb, " %s %s;", sub, quote(n))
 		} else {
-			fmt.Fprintf(&sb, " %s %s { %s %s; }", sub, n, val, in.Values[i])
+			fmt.Fprintf(&sb, " %s %s { %s %s; }", sub, quote(n), val, in.Values[i])
 		}
 	}
 	return sb.String() + " }"
@@ -50,19 +82,24 @@ func checkMany(in ManyInput) *fail {
 			fmt.Fprintf(&sb, " leaf %s { %s }", leaf, typeText(l))
 			lists[leaf] = l
 		}
-		for i := 0; i < in.N; i++ {
+		for i := 0; i < in.N && in.Lists == nil; i++ {
 			add(fmt.Sprintf("l%d", i), manyList(i))
 		}
-		for _, i := range []int{0, in.N / 2, in.N - 1, 1 % in.N} {
-			if _, dup := lists[fmt.Sprintf("again%d", i)]; !dup {
+		for _, i := range []int{0, in.N / 2, in.N - 1, 1 % (in.N + len(in.Lists))} {
+			if _, dup := lists[fmt.Sprintf("again%d", i)]; !dup && in.Lists == nil {
 				add(fmt.Sprintf("again%d", i), manyList(i))
 			}
 		}
-		other := manyList(0)
-		other.Values[1] = "777"
-		add("nearly0", other)
-		fmt.Fprintf(&sb, " typedef td { %s } leaf viatd { type td; }", typeText(manyList(0)))
-		lists["viatd"] = manyList(0)
+		if in.Lists == nil {
+			other := manyList(0)
+			other.Values[1] = "777"
+			add("nearly0", other)
+			fmt.Fprintf(&sb, " typedef td { %s } leaf viatd { type td; }", typeText(manyList(0)))
+			lists["viatd"] = manyList(0)
+		}
+		for i, l := range in.Lists {
+			add(fmt.Sprintf("c%d", i), l)
+		}
 		sb.WriteString(" }")
 		ms := yang.NewModules()
 		if err := ms.Parse(sb.String(), "m.yang"); err != nil {
